@@ -51,6 +51,7 @@ type cpSite struct {
 }
 
 type cpRendered struct {
+	ML    map[int]bool // lines that open a multi-line call
 	Text  string
 	Sites map[int]cpSite
 	Names []string // function display names as goatlang prints them
@@ -106,7 +107,7 @@ func selF(k int) func() int {
 // cpRender turns the structure into source text, one statement per line, and
 // records the line of every fault site.
 func cpRender(p *CPPlan) *cpRendered {
-	r := &cpRendered{Sites: map[int]cpSite{}}
+	r := &cpRendered{Sites: map[int]cpSite{}, ML: map[int]bool{}}
 	var b strings.Builder
 	b.WriteString(cpPrelude)
 	line := strings.Count(cpPrelude, "\n")
@@ -126,7 +127,11 @@ func cpRender(p *CPPlan) *cpRendered {
 		for _, s := range ss {
 			site := func(text string) {
 				l := emit(ind + text)
-				r.Sites[s.Site] = cpSite{Func: fi, Line: l, Kind: s.Kind, Ctx: ctx}
+				kind := s.Kind
+				if kind == "mlcall" {
+					kind = "idx-in-multiline-call"
+				}
+				r.Sites[s.Site] = cpSite{Func: fi, Line: l, Kind: kind, Ctx: ctx}
 			}
 			id := s.Site
 			switch s.Kind {
@@ -163,6 +168,26 @@ func cpRender(p *CPPlan) *cpRendered {
 			case "call", "mcall":
 				if s.Target > fi && s.Target < len(p.Funcs) {
 					emit(ind + fmt.Sprintf("host.At(%d); r = r + %s", line+1, cpCallExpr(s.Target, &p.Funcs[s.Target], "d")))
+				}
+			case "mlcall":
+				// a gofmt-style multi-line call: the call's line is the line of "name("
+				if s.Target > fi && s.Target < len(p.Funcs) {
+					open := cpCallExpr(s.Target, &p.Funcs[s.Target], "")
+					open = open[:len(open)-1] // drop ")"
+					r.ML[emit(ind+fmt.Sprintf("host.At(%d); r = r + %s", line+1, open))] = true
+					if s.Site != 0 {
+						site(fmt.Sprintf("\td + arr[host.Idx(%d)] - 3,", id))
+					} else {
+						emit(ind + "\td,")
+					}
+					emit(ind + ")")
+				}
+			case "dotcall":
+				// a method call split after the dot: the call's line is the line of "m("
+				if s.Target > fi && s.Target < len(p.Funcs) && p.Funcs[s.Target].Method {
+					emit(ind + "o := obj")
+					emit(ind + fmt.Sprintf("host.At(%d); r = r + o.", line+2))
+					r.ML[emit(ind+fmt.Sprintf("\tm%d(d)", s.Target))] = true
 				}
 			case "fcall":
 				if s.Target > fi && s.Target < len(p.Funcs) && !p.Funcs[s.Target].Method {
@@ -251,7 +276,7 @@ func (crashpoint) Describe() core.EngineInfo {
 		Real:       []string{"goatlang compiler positions (newPos, peephole fusion), VM backtrace (mkFunc push/pop), error builder (btErr), via Load/Call/Eval"},
 		Stubs:      []string{"host.Idx/Den/Flag/Fail natives decide the fault instant; host.Enter/Leave/At keep the shadow stack", "SimDisk serves the program"},
 		Assumes:    []string{"one statement per line; call statements carry their own line number as an argument of host.At", "chains that cross a native re-entry (sort comparators) are not generated", "the activation entered by Call has no call-site line (position zero is skipped by the error builder)"},
-		ProbesWant: []string{"fault:idx-slice", "fault:idx-string", "fault:slice-bounds", "fault:div", "fault:mod", "fault:nil-set", "fault:nil-get", "fault:nil-method", "fault:nil-map", "fault:nil-func", "fault:panic", "fault:native", "fault:for-cond", "depth_10plus", "depth_20plus", "in_method", "in_loop", "in_switch", "entry_eval", "optimizer_off"},
+		ProbesWant: []string{"fault:idx-slice", "fault:idx-string", "fault:slice-bounds", "fault:div", "fault:mod", "fault:nil-set", "fault:nil-get", "fault:nil-method", "fault:nil-map", "fault:nil-func", "fault:panic", "fault:native", "fault:for-cond", "fault:idx-in-multiline-call", "multiline_call_active", "depth_10plus", "depth_20plus", "in_method", "in_loop", "in_switch", "entry_eval", "optimizer_off"},
 	}
 }
 
@@ -286,7 +311,12 @@ func (g *cpGen) stmt(fi, depth int) CPStmt {
 	switch {
 	case k < 8 || depth >= 2:
 		if k >= 5 && fi+1 < g.nf {
-			return CPStmt{Kind: core.Pick(g.r, []string{"call", "call", "fcall"}), Target: fi + 1 + g.r.Intn(g.nf-fi-1)}
+			st := CPStmt{Kind: core.Pick(g.r, []string{"call", "call", "fcall", "mlcall", "dotcall"}), Target: fi + 1 + g.r.Intn(g.nf-fi-1)}
+			if st.Kind == "mlcall" && g.r.Bool() {
+				g.nextID++
+				st.Site = g.nextID
+			}
+			return st
 		}
 		return g.siteStmt()
 	case k < 11 && fi+1 < g.nf:
@@ -472,6 +502,12 @@ func (crashpoint) Execute(plan any, keep bool) *core.Result {
 	if len(run.snap) > 0 && p.Funcs[run.snap[len(run.snap)-1].fn].Method {
 		res.Counters.Inc("in_method")
 	}
+	for _, fr := range run.snap {
+		if rd.ML[fr.callLine] {
+			res.Counters.Inc("multiline_call_active")
+			break
+		}
+	}
 	if strings.Contains(site.Ctx, "l") {
 		res.Counters.Inc("in_loop")
 	}
@@ -519,7 +555,11 @@ func (crashpoint) Execute(plan any, keep bool) *core.Result {
 	}
 	for i := 1; i < len(want); i++ {
 		if locs[i] != want[i] {
-			res.Fail("C20", "C20/chain", "entry", "call-chain entry %d should be %s line %d but is %s line %d; want %v got %v", i, want[i].Func, want[i].Line, locs[i].Func, locs[i].Line, want, locs)
+			form := "single-line-call"
+			if rd.ML[want[i].Line] {
+				form = "multi-line-call"
+			}
+			res.Fail("C20", "C20/chain", fmt.Sprintf("entry-%s-optimizer-on=%v", form, !p.OptimizeOff), "call-chain entry %d should be %s line %d but is %s line %d; want %v got %v", i, want[i].Func, want[i].Line, locs[i].Func, locs[i].Line, want, locs)
 			break
 		}
 	}
